@@ -41,91 +41,9 @@ func ruleNoPkgState(c *eng.Ctx) {
 	p := c.P
 	funcs := p.ModuleFuncs()
 
-	// Summaries, solved to a fixpoint over the module:
-	//   writesParam[f][i]  : f (or a callee) stores through memory reachable from parameter i
-	//   returnsGlobal[f]   : some result of f is rooted at a package-level variable
-	writesParam := map[*ssa.Function]map[int]bool{}
-	returnsGlobal := map[*ssa.Function]*ssa.Global{}
-
-	// root walks an address/reference value back to what it is derived from.
-	type rootInfo struct {
-		global *ssa.Global
-		param  int // -1 if none
-	}
-	var rootOfV func(v ssa.Value, depth int, seen map[ssa.Value]bool) rootInfo
-	rootOf := func(v ssa.Value, depth int) rootInfo { return rootOfV(v, depth, map[ssa.Value]bool{}) }
-	rootOfV = func(v ssa.Value, depth int, seen map[ssa.Value]bool) rootInfo {
-		none := rootInfo{param: -1}
-		if v == nil || depth > 40 || seen[v] {
-			return none
-		}
-		seen[v] = true
-		rootOf := func(v ssa.Value, d int) rootInfo { return rootOfV(v, d, seen) }
-		switch x := v.(type) {
-		case *ssa.Global:
-			if eng.InModule(nil) || x.Pkg != nil && strings.HasPrefix(x.Pkg.Pkg.Path(), eng.ModPath) {
-				return rootInfo{global: x, param: -1}
-			}
-			return none
-		case *ssa.Parameter:
-			for i, q := range x.Parent().Params {
-				if q == x && isRefType(x.Type()) {
-					return rootInfo{param: i}
-				}
-			}
-			return none
-		case *ssa.FieldAddr:
-			return rootOf(x.X, depth+1)
-		case *ssa.IndexAddr:
-			return rootOf(x.X, depth+1)
-		case *ssa.Slice:
-			return rootOf(x.X, depth+1)
-		case *ssa.UnOp:
-			if x.Op == token.MUL && isRefType(x.Type()) {
-				return rootOf(x.X, depth+1)
-			}
-			return none
-		case *ssa.Field:
-			if isRefType(x.Type()) {
-				return rootOf(x.X, depth+1)
-			}
-			return none
-		case *ssa.Lookup:
-			if isRefType(x.Type()) {
-				return rootOf(x.X, depth+1)
-			}
-			return none
-		case *ssa.Extract:
-			if isRefType(x.Type()) {
-				return rootOf(x.Tuple, depth+1)
-			}
-			return none
-		case *ssa.ChangeType:
-			return rootOf(x.X, depth+1)
-		case *ssa.Convert:
-			return rootOf(x.X, depth+1)
-		case *ssa.MakeInterface:
-			return rootOf(x.X, depth+1)
-		case *ssa.TypeAssert:
-			return rootOf(x.X, depth+1)
-		case *ssa.Phi:
-			for _, e := range x.Edges {
-				if r := rootOf(e, depth+1); r.global != nil || r.param >= 0 {
-					return r
-				}
-			}
-			return none
-		case *ssa.Call:
-			for _, cal := range p.Callees(x) {
-				if g := returnsGlobal[cal]; g != nil {
-					return rootInfo{global: g, param: -1}
-				}
-			}
-			return none
-		}
-		return none
-	}
-
+	eff := eng.EffectsOf(p)
+	writesParam, returnsGlobal := eff.WritesParam, eff.ReturnsGlobal
+	writes := eff.Writes
 	isInit := func(fn *ssa.Function) bool {
 		for f := fn; f != nil; f = f.Parent() {
 			if f.Name() == "init" || strings.HasPrefix(f.Name(), "init#") || strings.HasPrefix(f.Synthetic, "package init") {
@@ -134,83 +52,6 @@ func ruleNoPkgState(c *eng.Ctx) {
 		}
 		return false
 	}
-
-	type write struct {
-		fn   *ssa.Function
-		pos  token.Pos
-		glob *ssa.Global
-		how  string
-	}
-	var writes []write
-	scan := func(record bool) bool {
-		changed := false
-		for _, fn := range funcs {
-			note := func(r rootInfo, pos token.Pos, how string) {
-				if r.param >= 0 {
-					if writesParam[fn] == nil {
-						writesParam[fn] = map[int]bool{}
-					}
-					if !writesParam[fn][r.param] {
-						writesParam[fn][r.param] = true
-						changed = true
-					}
-				}
-				if r.global != nil && record {
-					writes = append(writes, write{fn, pos, r.global, how})
-				}
-			}
-			for _, b := range fn.Blocks {
-				for _, in := range b.Instrs {
-					switch x := in.(type) {
-					case *ssa.Store:
-						note(rootOf(x.Addr, 0), x.Pos(), "store")
-					case *ssa.MapUpdate:
-						note(rootOf(x.Map, 0), x.Pos(), "map update")
-					case *ssa.Go:
-						_ = x
-					case ssa.CallInstruction:
-						cc := x.Common()
-						if bi, ok := cc.Value.(*ssa.Builtin); ok {
-							switch bi.Name() {
-							case "copy", "delete", "clear":
-								if len(cc.Args) > 0 {
-									note(rootOf(cc.Args[0], 0), x.Pos(), bi.Name())
-								}
-							}
-							continue
-						}
-						for _, cal := range p.Callees(x) {
-							wp := writesParam[cal]
-							if len(wp) == 0 {
-								continue
-							}
-							args := cc.Args
-							if cc.IsInvoke() {
-								args = append([]ssa.Value{cc.Value}, cc.Args...)
-							}
-							for i, a := range args {
-								if wp[i] {
-									note(rootOf(a, 0), x.Pos(), "call "+eng.FuncName(cal)+" which writes through parameter "+fmt.Sprint(i))
-								}
-							}
-						}
-					}
-				}
-			}
-			for _, r := range eng.Returns(fn) {
-				for _, res := range r.Results {
-					if ri := rootOf(res, 0); ri.global != nil && returnsGlobal[fn] == nil {
-						returnsGlobal[fn] = ri.global
-						changed = true
-					}
-				}
-			}
-		}
-		return changed
-	}
-	for i := 0; i < 20 && scan(false); i++ {
-	}
-	scan(true)
 
 	// reachability of a registration API from other packages
 	cg := p.CallGraph()
@@ -238,20 +79,20 @@ func ruleNoPkgState(c *eng.Ctx) {
 	seenFn := map[*ssa.Function]bool{}
 	reported := map[string]bool{}
 	for _, w := range writes {
-		if isInit(w.fn) {
+		if isInit(w.Fn) {
 			continue
 		}
-		name := eng.FuncName(w.fn)
+		name := eng.FuncName(w.Fn)
 		if _, ok := registrationAPI[name]; ok {
 			continue
 		}
-		key := name + "->" + w.glob.Pkg.Pkg.Name() + "." + w.glob.Name()
+		key := name + "->" + w.Glob.Pkg.Pkg.Name() + "." + w.Glob.Name()
 		if reported[key] {
 			continue
 		}
 		reported[key] = true
-		seenFn[w.fn] = true
-		c.Viol(R, key, w.pos, fmt.Sprintf("%s of package-level variable %s outside initialisation (%s): state outlives the call and is shared between goroutines", w.how, w.glob.Name(), name))
+		seenFn[w.Fn] = true
+		c.Viol(R, key, w.Pos, fmt.Sprintf("%s of package-level variable %s outside initialisation (%s): state outlives the call and is shared between goroutines", w.How, w.Glob.Name(), name))
 	}
 	goCount := 0
 	for _, fn := range funcs {
